@@ -1742,6 +1742,8 @@ def fcomip(info, a):
     e.append(ExprAff(zf, ExprCond(cond, ExprInt_from(zf, 0), ExprInt_from(zf, 1))))
     e.append(ExprAff(pf, ExprCond(cond, ExprInt_from(zf, 0), ExprInt_from(zf, 1))))
     e.append(ExprAff(cf, ExprCond(cond, ExprInt_from(zf, 0), ExprInt_from(zf, 1))))
+    # fcomip/fucomip pop the register stack after the comparison
+    e += float_pop()
     return e
 
 def fucom(info, a):
